@@ -314,6 +314,12 @@ def check_unencodable():
   viol = []
   n = 0
   odd = [None, 0, 5, b'raw', ['l'], 1.5]
+  fresh_ctx = {}
+  for cid in (None, 'c'):
+    world.reset()
+    fch = Chain(cid)
+    ff, _, _ = fch.call('fresh', 'arg', {}, None)
+    fresh_ctx[cid] = [M.decode_tdispatch(f[2])['contexts'] for f in ff if f[0] == M.T_DISPATCH]
   for cid in (None, 'c'):
     for v in odd:
       for extra in ({}, {'a': 'x'}, {'zz': 'y'}):
@@ -324,7 +330,7 @@ def check_unencodable():
           props = dict(extra)
           props[key] = v
           raw0 = len(ch.peer.raw)
-          frames, evt, st = ch.call('u%d' % n, 'arg', props, None)
+          frames, evt, st = ch.call('u%d' % n, 'arg', props, (vloop.EPOCH + 0.5025) if (n % 2) else None)
           written = bytes(ch.peer.raw[raw0:])
           resp = ch.term.responses.get('u%d' % n)
           bad = None
@@ -345,6 +351,13 @@ def check_unencodable():
                   bad = 'the Tdispatch decodes to dst=%r dtab=%r call=%r' % (d['dst'], d['dtab'], log)
               except Exception as e:  # noqa
                 bad = 'the Tdispatch body does not decode: %r' % (e,)
+          if not bad:
+            # the next, ordinary call on the same client (no properties, no deadline) is framed exactly as on a fresh client
+            f2, _, _ = ch.call('n%d' % n, 'arg', {}, None)
+            ctx2 = [M.decode_tdispatch(f[2])['contexts'] for f in f2 if f[0] == M.T_DISPATCH]
+            if ctx2 != fresh_ctx[cid]:
+              bad = ('the NEXT call on the same client (no properties, no deadline) was framed with contexts %r; a fresh client frames it with %r'
+                     % (ctx2, fresh_ctx[cid]))
           if bad:
             viol.append({'clause': 'C13.dispatch-body', 'message': 'caller property %r=%r (others %r, client id %r): %s' % (key, v, extra, cid, bad),
                          'sig': {'unencodable': True}})
